@@ -156,7 +156,7 @@ func vh_C16_L4_transfer_across_wrap()    { vh_C02_L1_reliable_transfer_one_fault
 func vh_C16_L4_forward_tsn_largest_ssn() { vh_C07_L2_advance_only_over_abandoned() }
 func vh_C16_L4_gap_fill_at_zero_window() { vh_C11_L2_credit_and_full_buffer() }
 
-func vh_C16_L4_clear_range_across_wrap() { vh_C05_step_clear_range() }
+func vh_C16_L4_clear_range_across_wrap()       { vh_C05_step_clear_range() }
 func vh_C16_L4_failed_write_rollback_at_wrap() { vh_C18_L2_block_write_gate() }
 
 // C16.L5: loss-detection state does not depend on where the TSN space starts. Two chunks in
@@ -174,3 +174,4 @@ func vh_C16_L5_rack_state_independent_of_tsn_base() {
 	vassert(a.rackHighestDeliveredOrigTSN == f.base+2, "the high-water mark of delivered original TSNs follows the acknowledgements")
 	vcover("end")
 }
+func vh_C16_L4_close_across_the_wrap() { vh_C14_L1_close_after_data_and_reuse() }
